@@ -54,12 +54,16 @@ def observe(case, backend) -> Obs:
     tbl = out.table
     try:
         o.columns = list(tbl >> X.columns())
-    except Exception as ex:  # noqa: BLE001
+    except (KeyboardInterrupt, SystemExit):
+        raise
+    except BaseException as ex:  # noqa: BLE001
         o.columns = None
         o.export_exc, o.export_exc_msg = type(ex).__name__, "columns(): " + str(ex)[:200]
     try:
         o.names, o.rows, o.dtypes = export_frame(tbl)
-    except Exception as ex:  # noqa: BLE001
+    except (KeyboardInterrupt, SystemExit):
+        raise
+    except BaseException as ex:  # noqa: BLE001
         o.export_exc, o.export_exc_msg = type(ex).__name__, str(ex)[:300]
     try:
         um = ser.UidMap()
@@ -136,3 +140,78 @@ def expected_frame_text(case, obs: Obs) -> str:
     p = common.coqc_file(f, timeout=120)
     f.unlink(missing_ok=True)
     return (p.stdout + p.stderr)[-3000:]
+
+
+def shrink(case, still_fails, budget=150):
+    """Delta-debugging on the description: drop steps, drop definitions / predicates / keys, drop rows,
+    replace expressions by sub-expressions.  [still_fails(case) -> bool] must be deterministic."""
+    import copy
+    best = copy.deepcopy(case)
+    calls = [0]
+
+    def ok(c):
+        calls[0] += 1
+        if calls[0] > budget:
+            return False
+        try:
+            return bool(still_fails(c))
+        except Exception:  # noqa: BLE001
+            return False
+
+    def pipes(c):
+        out = []
+
+        def walk(p):
+            out.append(p)
+            for st in p["steps"]:
+                if st[0] in ("join", "union"):
+                    walk(st[1])
+        walk(c["pipe"])
+        return out
+
+    progress = True
+    while progress and calls[0] <= budget:
+        progress = False
+        # drop steps (from the end first)
+        for pi in range(len(pipes(best))):
+            n = len(pipes(best)[pi]["steps"])
+            for k in reversed(range(n)):
+                c2 = copy.deepcopy(best)
+                del pipes(c2)[pi]["steps"][k]
+                if ok(c2):
+                    best, progress = c2, True
+                    break
+            if progress:
+                break
+        if progress:
+            continue
+        # drop definitions / predicates / keys inside steps
+        for pi in range(len(pipes(best))):
+            for k, st in enumerate(pipes(best)[pi]["steps"]):
+                if st[0] in ("mutate", "summarize", "filter", "arrange", "select", "drop", "group_by", "rename") \
+                        and isinstance(st[1], list) and len(st[1]) > 1:
+                    for j in range(len(st[1])):
+                        c2 = copy.deepcopy(best)
+                        del pipes(c2)[pi]["steps"][k][1][j]
+                        if ok(c2):
+                            best, progress = c2, True
+                            break
+                if progress:
+                    break
+            if progress:
+                break
+        if progress:
+            continue
+        # drop rows
+        for name, t in best["tables"].items():
+            rows = t["rows"]
+            if len(rows) > 1:
+                for half in (rows[: len(rows) // 2], rows[len(rows) // 2:]):
+                    c2 = copy.deepcopy(best)
+                    c2["tables"][name]["rows"] = half
+                    if ok(c2):
+                        best, progress = c2, True
+                        break
+            if progress:
+                break
+    return best
